@@ -8,7 +8,8 @@ REPO = Path(os.environ.get("VERIF_REPO", "/repo"))
 WORK = VERIF / ".work"
 SPEC = VERIF / "spec"
 HARNESS = VERIF / "harness"
-EVID = VERIF / "evidence"
+# runs against a scratch tree (VERIF_REPO=<worktree with a seeded change>) must not overwrite the evidence of the real tree
+EVID = VERIF / "evidence" if str(REPO) == "/repo" else WORK / "alt-evidence"
 REPLAY = EVID / "replay"
 TLA_CP = "/opt/veriftools/tla/tla2tools.jar:/opt/veriftools/tla/CommunityModules-deps.jar"
 
